@@ -39,7 +39,7 @@ loop it replaces.  A refutation at the SMT level is never reported by itself: ev
 obligation whose clause does not recognise a shape, and every locked obligation the changed code no longer
 generates is `unknown` and handed to the native replayer (replay/C10.py); VIOLATION = a failing input reproduced on
 the real code.
-Recorded known finding: F26 (known_findings.json).  F10, F25 and F27 are fixed in /repo: their input classes are checked
+Recorded known findings: F26, F31 (known_findings.json).  F10, F25 and F27 are fixed in /repo: their input classes are checked
 like every other input (replay/C10.py exempts the class of a finding only while known_findings.json lists it as open).
 """
 import ast
@@ -4393,6 +4393,15 @@ def native_files_info(repo, tier):
                               "property orders; unknown properties skipped by size")
 
 
+def native_files_info_attributes(repo, tier):
+    """the attribute words of the FilesInfo section (the directory bit 0x10 is read from them) are handed to _build_file_list as stored:
+    executable clause of the same function-level contract, run natively (BOUNDED); fails today: recorded finding F31"""
+    return _native_obligation(repo, F31_OID, "1 / 3 / 9 entries, all attributes defined, files and directories mixed")
+
+
+F31_OID = "C10/sevenzip.py::SevenZipReader._parse_files_info/bounded#attributes-handed-to-_build_file_list-equal-the-FilesInfo-grammar.BOUNDED"
+
+
 def known_findings(kf, violations, repo, tier):
     """Recorded genuine defects (known_findings.json): each witness is replayed natively; a finding that still fails
     prints KNOWN-FINDING and covers exactly its own obligation id (every other refuted obligation stays a violation)."""
@@ -4420,7 +4429,7 @@ def known_findings(kf, violations, repo, tier):
 
 EXECUTOR = MemberExecutor
 EXECUTOR_KW = {}
-EXTRA = [table_check, native_scope, native_files_info]
+EXTRA = [table_check, native_scope, native_files_info, native_files_info_attributes]
 TRUSTED = [
     "decode (copy = identity, LZMA / LZMA2 via liblzma) is uninterpreted: _apply_decoder is an assumed contract; its results are "
     "compared natively by replay/C10.py for copy / LZMA / LZMA2 folders",
